@@ -521,6 +521,7 @@ static void group_case(FILE *out, vf::Rng &rng, int nobj, int ngroups, bool exha
 
 int main(int argc, char **argv) {
     vf::install_handlers();
+    vf::ledger_trace("h_value", false);
     if (argc < 2) return 2;
     std::string mode = argv[1];
     if (mode == "walk" && argc >= 4) {
